@@ -1598,6 +1598,11 @@ class Interp:
         return self.e_ListComp(node, frame)
 
     def e_SetComp(self, node, frame):
+        h = getattr(self, "symbolic_setcomp", None)
+        if h is not None:
+            r = h(node, frame)
+            if r is not NotImplemented:
+                return r
         out = []
         self._comp(node.generators, frame, lambda fr: out.append(self.eval(node.elt, fr)))
         if has_sym(out):
